@@ -570,6 +570,10 @@ fn do_op(w: &Arc<World>, op: &Op) -> Res {
             w.ctx.gate(*gate).open();
             Res::Unit
         }
+        Op::GateSignal { gate } => {
+            w.ctx.gate(*gate).signal();
+            Res::Unit
+        }
         Op::Stall(s) => {
             w.ctx.stall(*s);
             Res::Unit
